@@ -2,7 +2,7 @@
     audited by Print Assumptions in the generated Audit file. *)
 From V.Lib Require Import Base MachInt.
 From V.Gen Require Import C12Consts.
-From V.C12 Require Import Model Spec ProofsPct ProofsB64 ProofsAmount ProofsRender ProofsAccept ProofsTotal.
+From V.C12 Require Import Model Spec ProofsPct ProofsB64 ProofsAmount ProofsRender ProofsAccept ProofsTotal ProofsCtors ProofsSurface ProofsAmountSpec Bridge.
 (* the case-evaluation files belong to the closure that every run rebuilds *)
 From V.C12 Require Import Lit Corr Wf.
 Local Open Scope Z_scope.
@@ -14,6 +14,14 @@ Theorem C12_amount_parse_exact : forall s z, parse_amount s = Some z -> amount_d
 Proof. exact amount_parse_exact. Qed.
 Theorem C12_amount_str_qchars : forall z, 0 <= z <= MAX_MONEY -> forallb is_qchar (amount_str z) = true.
 Proof. exact amount_str_qchars. Qed.
+
+(** [parse_amount] is the mathematical specification on every string: split at the first '.', both
+    parts ASCII digits, 1..8 fractional digits, exact value <= MAX_MONEY (no machine arithmetic). *)
+Theorem C12_parse_amount_spec : forall s, parse_amount s = amount_spec s.
+Proof. exact parse_amount_spec. Qed.
+(** The rendering is canonical: no trailing fractional zero, no leading zero on the integer part. *)
+Theorem C12_amount_str_canonical : forall z, 0 <= z <= MAX_MONEY -> amount_canonical (amount_str z) = true.
+Proof. exact amount_str_canonical. Qed.
 
 (** ** Percent-encoding with the regenerated QCHAR_ENCODE set *)
 Theorem C12_pct_roundtrip : forall bs, Forall byte bs -> pct_decode (pct_encode bs) = bs.
@@ -54,7 +62,7 @@ Theorem C12_request_roundtrip :
     forall r : request addr,
       wf_requestb addr r = true /\ validb addr can_memo t_only r = true ->
       from_uri addr addr_dec can_memo t_only (to_uri addr addr_enc r) = Ok r.
-Proof. exact request_roundtrip. Qed.
+Proof. exact request_roundtrip_g. Qed.
 
 (** ** Only valid requests parse: an accepted URI yields a request that satisfies the type
     invariants and every ZIP 321 rule ([validb] = index <= 9999 /\ per payment: memo rule, zero-valued
@@ -66,6 +74,20 @@ Theorem C12_accepted_is_valid :
     wf_requestb addr r = true /\ validb addr can_memo t_only r = true.
 Proof. exact accepted_is_valid. Qed.
 
+(** Surface rules, stated on the URI text with Spec-level string functions only (no parser): in an
+    accepted URI every index suffix is 1..9999 without leading zero and no parameter name starts with
+    "req-" ([uri_rules_ok]); and the request has exactly one field per URI parameter
+    ([uri_param_count] = number of '&'-separated parameters plus the lead address; [count_fields] =
+    per payment 1 + amount + memo + label + message + additional parameters).  Together with
+    [C12_accepted_is_valid] (distinct names, one recipient per payment by construction) this says that
+    no parameter was dropped: no duplicate (name, index) was swallowed and every index that occurs has
+    its recipient. *)
+Theorem C12_accepted_surface :
+  forall (addr : Type) (addr_dec : bytes -> option addr) (can_memo t_only : addr -> bool) (uri : bytes) (r : request addr),
+    from_uri addr addr_dec can_memo t_only uri = Ok r ->
+    uri_rules_ok uri = true /\ uri_param_count uri = count_fields addr r.
+Proof. exact accepted_surface. Qed.
+
 (** ... and re-renders to a URI that parses to the same request. *)
 Theorem C12_accepted_rerender :
   forall (addr : Type) (addr_dec : bytes -> option addr) (addr_enc : addr -> bytes) (can_memo t_only : addr -> bool),
@@ -75,7 +97,7 @@ Theorem C12_accepted_rerender :
     forall (uri : bytes) (r : request addr),
       from_uri addr addr_dec can_memo t_only uri = Ok r ->
       from_uri addr addr_dec can_memo t_only (to_uri addr addr_enc r) = Ok r.
-Proof. exact accepted_rerender. Qed.
+Proof. exact accepted_rerender_g. Qed.
 
 (** A well-formed request survives the round trip exactly when it is valid. *)
 Theorem C12_roundtrip_iff_valid :
@@ -85,7 +107,7 @@ Theorem C12_roundtrip_iff_valid :
     (forall a, forallb is_alnum (addr_enc a) = true) ->
     forall r : request addr, wf_requestb addr r = true ->
       (from_uri addr addr_dec can_memo t_only (to_uri addr addr_enc r) = Ok r <-> validb addr can_memo t_only r = true).
-Proof. exact roundtrip_iff_valid. Qed.
+Proof. exact roundtrip_iff_valid_g. Qed.
 
 (** The exclusion in [validb] is necessary: with a reserved or indexed additional-parameter name every
     other rule holds, the rendering parses, and the result is a different request. *)
@@ -102,6 +124,78 @@ Theorem C12_indexed_name_breaks_roundtrip :
   u_from_uri (u_to_uri r) = Ok [(0, mkPayment tt None None None None []); (1, mkPayment tt None None None None [([97], [120])])].
 Proof. exact indexed_name_breaks_roundtrip. Qed.
 
+(** The same with the oracle hypotheses only for the addresses that occur: [addr_ok a] = the decoder
+    inverts the encoder on [a] and [encode a] is non-empty alphanumeric. *)
+Theorem C12_request_roundtrip_local :
+  forall (addr : Type) (addr_dec : bytes -> option addr) (addr_enc : addr -> bytes) (can_memo t_only : addr -> bool)
+         (r : request addr),
+    wf_requestb addr r = true /\ validb addr can_memo t_only r = true ->
+    Forall (fun ip => addr_ok addr addr_dec addr_enc (p_addr (snd ip))) r ->
+    from_uri addr addr_dec can_memo t_only (to_uri addr addr_enc r) = Ok r.
+Proof. exact request_roundtrip. Qed.
+
+(** The complete outcome of parsing a rendering, for any well-formed request whose indices are <= 9999
+    and whose additional-parameter names are in the grammar and none of the five defined names: a [req-]
+    name makes the parse fail, otherwise the first payment with a duplicate name is reported, otherwise the
+    first payment (in index order) breaking the zero-valued-transparent or memo rule, otherwise the request. *)
+Theorem C12_from_uri_to_uri :
+  forall (addr : Type) (addr_dec : bytes -> option addr) (addr_enc : addr -> bytes) (can_memo t_only : addr -> bool)
+         (r : request addr),
+    pre_request addr addr_dec addr_enc r ->
+    from_uri addr addr_dec can_memo t_only (to_uri addr addr_enc r) = render_outcome addr can_memo t_only r.
+Proof. exact from_uri_to_uri. Qed.
+
+(** Every address of an accepted request was produced by the address decoder. *)
+Theorem C12_accepted_addrs :
+  forall (addr : Type) (addr_dec : bytes -> option addr) (can_memo t_only : addr -> bool) (uri : bytes) (r : request addr),
+    from_uri addr addr_dec can_memo t_only uri = Ok r ->
+    Forall (fun ip => exists s, addr_dec s = Some (p_addr (snd ip))) r.
+Proof. exact accepted_addrs. Qed.
+
+(** ** The constructors *)
+(** [TransactionRequest::new] accepts exactly the valid requests and returns them unchanged. *)
+Theorem C12_request_new_ok :
+  forall (addr : Type) (addr_dec : bytes -> option addr) (addr_enc : addr -> bytes) (can_memo t_only : addr -> bool),
+    (forall a, addr_dec (addr_enc a) = Some a) ->
+    (forall a, addr_enc a <> []) ->
+    (forall a, forallb is_alnum (addr_enc a) = true) ->
+    forall (ps : list (payment addr)) (r : request addr), forallb (wf_paymentb addr) ps = true ->
+      (request_new addr addr_dec addr_enc can_memo t_only ps = Ok r <->
+       r = enumerate_from addr 0 ps /\ Z.of_nat (length ps) <= 9999 /\ validb addr can_memo t_only r = true).
+Proof. exact request_new_ok_g. Qed.
+Theorem C12_request_new_too_many :
+  forall (addr : Type) (addr_dec : bytes -> option addr) (addr_enc : addr -> bytes) (can_memo t_only : addr -> bool)
+         (ps : list (payment addr)) (n : Z),
+    request_new addr addr_dec addr_enc can_memo t_only ps = Err (ETooMany n) <->
+    9999 < Z.of_nat (length ps) /\ n = Z.of_nat (length ps).
+Proof. exact request_new_too_many. Qed.
+(** [Payment::new]: memo to a recipient that cannot receive one refused, then zero-valued transparent. *)
+Theorem C12_payment_new_spec :
+  forall (addr : Type) (can_memo t_only : addr -> bool) a am me la ms ot,
+    payment_new addr can_memo t_only a am me la ms ot =
+    let p := mkPayment a am me la ms ot in
+    if negb (memo_rule addr can_memo p) then Err PTransparentMemo
+    else if negb (zero_transparent_rule addr t_only p) then Err PZeroTransparent
+    else Ok p.
+Proof. exact payment_new_spec. Qed.
+(** [from_indexed] checks that every index is <= 9999 - and nothing else (see the witnesses below). *)
+Theorem C12_from_indexed_ok :
+  forall (addr : Type) (r r' : request addr), from_indexed addr r = Ok r' <-> r' = r /\ index_rule addr r = true.
+Proof. exact from_indexed_ok. Qed.
+Theorem C12_from_indexed_err :
+  forall (addr : Type) (r : request addr) e, from_indexed addr r = Err e ->
+    exists k, e = ETooMany k /\ In k (map fst r) /\ 9999 < k.
+Proof. exact from_indexed_err. Qed.
+Theorem C12_from_indexed_unchecked :
+  let r := [(0, mkPayment tt (Some COIN) None None None [(s_label, [120])])] in
+  from_indexed unit r = Ok r /\ validb unit u_true u_false r = false.
+Proof. exact from_indexed_unchecked. Qed.
+(** [total] = sum of the amounts if all are present; failure exactly when the exact sum of the leading
+    present amounts exceeds MAX_MONEY. *)
+Theorem C12_total_eq_spec :
+  forall (addr : Type) (r : request addr), wf_requestb addr r = true -> total addr r = total_spec addr r.
+Proof. exact total_eq_spec. Qed.
+
 (** The repaired [TransactionRequest::new] refuses both witnesses and accepts the valid variant. *)
 Theorem C12_new_refuses_reserved_names :
   request_new unit u_dec u_enc u_true u_false [mkPayment tt (Some COIN) None None None [(s_label, [120])]] = Err EParse /\
@@ -116,6 +210,13 @@ Theorem C12_from_uri_total :
   forall (addr : Type) (addr_dec : bytes -> option addr) (can_memo t_only : addr -> bool) (uri : bytes),
     from_uri addr addr_dec can_memo t_only uri <> Panic.
 Proof. exact from_uri_total. Qed.
+
+(** ** Bridge: on every well-formed case (table entries satisfy the oracle hypotheses, requests satisfy the
+    type invariants), agreement of the implementation with the model implies the property on the
+    implementation's outcome - for all ten case constructors. *)
+Theorem C12_agree_implies_property : forall c,
+  wf_case c = true -> known_class c = 0%N -> run_case c = true -> prop_case c = true.
+Proof. exact agree_implies_property. Qed.
 
 (** Non-vacuity: the hypotheses of the round-trip theorem are satisfiable (one-address oracle), on a
     request that uses every field, an index above zero, the extreme amount and a multi-byte label. *)
